@@ -123,13 +123,13 @@ func runC13(c *Ctx) {
 		defineA := func() {
 			var fs []FieldDef
 			var dv []DevDef
-			kind := rng.Intn(5)
-			if kind >= 2 {
+			kind := rng.Intn(6) // 5: no fields and no developer flag (records are a bare header byte)
+			if kind >= 2 && kind != 5 {
 				for f := 0; f < 1+rng.Intn(6); f++ {
 					fs = append(fs, FieldDef{byte(f), byte(1 + rng.Intn(3)), 0x0D})
 				}
 			}
-			if kind <= 2 || rng.Intn(3) == 0 {
+			if kind <= 2 || (kind != 5 && rng.Intn(3) == 0) {
 				dv = []DevDef{}
 			}
 			if kind == 1 || kind == 2 || (dv != nil && rng.Intn(2) == 0) {
